@@ -25,6 +25,8 @@ pub struct Hooks {
     pub spawn: fn(Box<dyn FnOnce() + Send + 'static>),
     /// simulated monotonic clock
     pub now: fn() -> Duration,
+    /// io_uring opcode support as the simulated kernel of this run reports it (`None`: ask the real probe)
+    pub op_supported: fn(u8) -> Option<bool>,
 }
 
 static HOOKS: AtomicPtr<Hooks> = AtomicPtr::new(std::ptr::null_mut());
@@ -174,6 +176,15 @@ pub extern "Rust" fn __compio_verif_point(site: u32) {
 #[unsafe(no_mangle)]
 pub extern "Rust" fn __compio_verif_yield() {
     yield_now()
+}
+
+#[unsafe(no_mangle)]
+pub extern "Rust" fn __compio_verif_op_supported(code: u8) -> i8 {
+    match hooks().and_then(|h| (h.op_supported)(code)) {
+        Some(false) => 0,
+        Some(true) => 1,
+        None => -1,
+    }
 }
 
 #[unsafe(no_mangle)]
